@@ -5,6 +5,7 @@ import (
 	"go/constant"
 	"go/token"
 	"go/types"
+	"sort"
 	"strings"
 
 	"golang.org/x/tools/go/ssa"
@@ -887,6 +888,10 @@ func runC19(w *World, r *Report) {
 				if ci.Common().IsInvoke() && ci.Common().Value == ssa.Value(sp) {
 					return true
 				}
+				// reading from the stream is not giving it up
+				if sc := staticCallee(ci); sc != nil && origin(sc).Name() == "Recv" && len(ci.Common().Args) == 1 {
+					return false
+				}
 				for _, a := range ci.Common().Args {
 					if a == ssa.Value(sp) {
 						return true
@@ -923,6 +928,84 @@ func runC19(w *World, r *Report) {
 		}
 		if n < 4 {
 			r.Fail("C19.bundled-handlers-close", "stream callback handlers in the module", w.Fn("compose", "NewStreamGraphBranch").Pos(), fmt.Sprintf("%d handler-shaped functions found (floor 4)", n))
+		}
+	}
+
+	// ---- the belief behind the two exceptions above, decided: what handlerTemplate.Needed can say yes to, the dispatchers handle
+	r.Rule("C19.template-cases-agree", "utils/callbacks.handlerTemplate: the components Needed forwards to a user handler of the generic kind (composeTemplates) are exactly the ones each of the five dispatchers (OnStart, OnEnd, OnError, OnStartWithStreamInput, OnEndWithStreamOutput) forwards: a component Needed answers for and a dispatcher drops into `default` gets a stream copy made for it that nobody closes", 5)
+	{
+		fCT := w.Field("utils/callbacks", "HandlerHelper", "composeTemplates")
+		caseSet := func(fn *ssa.Function) map[string]bool {
+			out := map[string]bool{}
+			instrs(fn, func(in ssa.Instruction) {
+				iff, ok := in.(*ssa.If)
+				if !ok {
+					return
+				}
+				op, x, y, ok := asCmp(iff.Cond)
+				if !ok || op != token.EQL {
+					return
+				}
+				f, _ := loadedField(x)
+				k, isC := y.(*ssa.Const)
+				if f == nil || f.Name() != "Component" || !isC || k.Value == nil {
+					return
+				}
+				// the arm the match leads to looks the component up in composeTemplates
+				target := iff.Block().Succs[0]
+				hit := false
+				for _, b := range fn.Blocks {
+					if b != target && !target.Dominates(b) {
+						continue
+					}
+					// a block shared by several case labels is dominated by none of them: also accept the direct successor
+					for _, x := range b.Instrs {
+						if lk, ok := x.(*ssa.Lookup); ok && isLoadOfField(lk.X, fCT) {
+							hit = true
+						}
+					}
+				}
+				if !hit {
+					for _, x := range target.Instrs {
+						if lk, ok := x.(*ssa.Lookup); ok && isLoadOfField(lk.X, fCT) {
+							hit = true
+						}
+					}
+				}
+				if hit {
+					out[k.Value.ExactString()] = true
+				}
+			})
+			return out
+		}
+		hT := w.Named("utils/callbacks", "handlerTemplate")
+		ref := caseSet(methodOf(w, hT, "Needed"))
+		var refNames []string
+		for k := range ref {
+			refNames = append(refNames, k)
+		}
+		sort.Strings(refNames)
+		if len(ref) < 3 {
+			undecidedf("C19.template-cases-agree: Needed forwards only %d components to composeTemplates", len(ref))
+		}
+		for _, m := range []string{"OnStart", "OnEnd", "OnError", "OnStartWithStreamInput", "OnEndWithStreamOutput"} {
+			fn := methodOf(w, hT, m)
+			got := caseSet(fn)
+			var missing, extra []string
+			for k := range ref {
+				if !got[k] {
+					missing = append(missing, k)
+				}
+			}
+			for k := range got {
+				if !ref[k] {
+					extra = append(extra, k)
+				}
+			}
+			sort.Strings(missing)
+			sort.Strings(extra)
+			r.Check(len(missing) == 0 && len(extra) == 0, "C19.template-cases-agree", "handlerTemplate."+m+" forwards the components Needed answers for", fn.Pos(), "same case set as Needed: "+strings.Join(refNames, ", "),
+				fmt.Sprintf("Needed answers for %v which this dispatcher does not forward (it falls to `default: return ctx`), dispatcher-only: %v — for a stream timing the callback manager has by then made a copy of the stream for this handler, and the default arm drops it unclosed: with HandlerHelper installed, a caller that closes the run's output early leaves the producer blocked in Send", missing, extra))
 		}
 	}
 
@@ -1452,6 +1535,10 @@ func streamBranchConditionsClose(w *World, r *Report, rule string) int {
 				if !ok {
 					return false
 				}
+				// reading from the stream is not giving it up
+				if sc := staticCallee(ci); sc != nil && origin(sc).Name() == "Recv" && len(ci.Common().Args) == 1 {
+					return false
+				}
 				for _, a := range ci.Common().Args {
 					if a == ssa.Value(sp) {
 						return true
@@ -1462,6 +1549,43 @@ func streamBranchConditionsClose(w *World, r *Report, rule string) int {
 			leak, wit := pathQuery{fn: lit, goal: isReturn, avoid: consumes}.exists()
 			r.Check(!leak, rule, "stream branch condition "+w.fname(lit)+" gives up its stream copy on every path", lit.Pos(), "Close (or hand-over to a callee) before every return", "a return path neither closes the condition's copy of the stream nor hands it on ("+wit+"): when the caller closes the run's output early the merged / copied source is never closed and the producers (per-tool forwarders, the tools' own goroutines) stay blocked on their sends")
 		})
+	}
+	// the checkers those conditions hand their copy to: every function of flow/ shaped like a stream tool-call checker,
+	// func(context.Context, *StreamReader[…]) (bool, error) — the bundled defaults of the react and host agents
+	for _, fn := range w.RepoFuncs("flow") {
+		sig := fn.Signature
+		if fn.Parent() != nil || sig.Recv() != nil || sig.Params().Len() != 2 || sig.Results().Len() != 2 || len(fn.Blocks) == 0 {
+			continue
+		}
+		if b, ok := sig.Results().At(0).Type().Underlying().(*types.Basic); !ok || b.Kind() != types.Bool {
+			continue
+		}
+		pt, ok := sig.Params().At(1).Type().(*types.Pointer)
+		if !ok {
+			continue
+		}
+		if nm := namedOf(pt.Elem()); nm == nil || nm.Obj().Name() != "StreamReader" {
+			continue
+		}
+		sp := fn.Params[1]
+		n++
+		consumes := func(in ssa.Instruction) bool {
+			ci, ok := in.(ssa.CallInstruction)
+			if !ok {
+				return false
+			}
+			if sc := staticCallee(ci); sc != nil && origin(sc).Name() == "Recv" && len(ci.Common().Args) == 1 {
+				return false
+			}
+			for _, a := range ci.Common().Args {
+				if a == ssa.Value(sp) {
+					return true
+				}
+			}
+			return false
+		}
+		leak, wit := pathQuery{fn: fn, goal: isReturn, avoid: consumes}.exists()
+		r.Check(!leak, rule, "stream checker "+w.fname(fn)+" gives up its stream copy on every path", fn.Pos(), "Close (deferred, or before every return)", "a return path of the bundled tool-call checker leaves the copy it was handed open ("+wit+"): the branch condition passed its copy on to this function, so nobody else closes it — when the host answers directly and the caller stops reading early, the model's stream is never closed and its producer stays blocked in Send")
 	}
 	return n
 }
